@@ -490,6 +490,44 @@ def key_forms_case(ctx, fl):
     ctx.evaluations += n - 1
 
 
+def partial_collision_case(ctx, hashsize):
+    """script-hash locks (every digest size) against OTHER scripts chosen by bounded search so that their digest agrees with
+    the committed one on the first / last 1..2 bytes, or on every 8-byte word but one: the whole digest counts"""
+    import hashlib
+    S = T.Script.from_src('true')
+    want_d = hashlib.shake_256(S.bytes).digest(hashsize)
+    lock = T.make_scripthash_lock(S, hashsize).bytes
+    found = {}
+    kinds = {'last 1': lambda d: d[-1:] == want_d[-1:], 'last 2': lambda d: d[-2:] == want_d[-2:],
+             'first 1': lambda d: d[:1] == want_d[:1], 'first 2': lambda d: d[:2] == want_d[:2],
+             'last partial word': lambda d: d[-(hashsize % 8 or 8):][-2:] == want_d[-(hashsize % 8 or 8):][-2:]}
+    for i in range(1, 300000):
+        cand = b'\x03\x04' + i.to_bytes(4, 'big') + b'\x06\x01'          # push x<i> pop0 true
+        d = hashlib.shake_256(cand).digest(hashsize)
+        for k, pred in kinds.items():
+            if k not in found and pred(d):
+                found[k] = cand
+        if len(found) == len(kinds):
+            break
+    n = 0
+    cache = {'timestamp': 1_700_000_000}
+    for k, cand in sorted(found.items()):
+        n += 1
+        wb = T.make_scripthash_witness(T.Script.from_bytes(cand)).bytes
+        v = run_pair(ctx, wb, lock, cache)
+        ctx.state(('collision', hashsize, k))
+        ctx.outcome('collision:%s' % (v if type(v) is bool else 'raised'))
+        if v is not False:
+            ctx.violation({'clause': 'the lock rejects a witness for a different committed script', 'family': 'scripthash',
+                           'agreement': k.split(' ')[0]}, f'digest size {hashsize}: script {cand.hex()} agrees on the {k} byte(s): {v!r}')
+    # the honest witness still opens
+    v = run_pair(ctx, T.make_scripthash_witness(S).bytes, lock, cache)
+    if v is not True:
+        ctx.violation({'clause': 'exactly the intended holder can unlock', 'family': 'scripthash', 'block': 'digest sizes', 'kind': 'rejects'},
+                      f'digest size {hashsize}: {v!r}')
+    ctx.evaluations += n
+
+
 def pair_case(ctx, case):
     wi, tier = case
     seed = ctx.seed
@@ -555,6 +593,9 @@ def blocks(tier, seed):
             Block('script_sizes', [1, 3, 127, 128, 129, 254, 255, 256, 257, 258, 259, 260, 511, 512, 900], script_size_case,
                   'committed / surrogate scripts of 1..900 bytes (both sides of 2^7, 2^8, 2^9; the builders sign under the default 1024-byte item limit) through the script-hash, graftroot '
                   'surrogate (Script and source text) and graftap script-path builders', nshards=16),
+            Block('partial_digest_collisions', [8, 9, 16, 17, 20, 25, 26, 32, 33, 64], partial_collision_case,
+                  'script-hash digest sizes x other scripts agreeing on the first / last 1-2 digest bytes (bounded search over 300000 '
+                  'candidates)', nshards=12),
             Block('key_object_forms', ['00', '01', '80'], key_forms_case,
                   '11 builders x keys given as bytes / as PyNaCl SigningKey / VerifyKey objects x 3 flag values: identical scripts', nshards=3),
             Block('multisig_duplicate_keys', list(DUP_LOCKS), duplicate_key_case,
